@@ -27,7 +27,7 @@ def run(tier, seed, replay=None):
     return EL.standard_run(
         PID, tier, seed, replay, MC, corpus, nontrivial=lambda t: len(t["events"]) >= 1,
         role3={"quick": [dict(family="composite", max_ballots=2, max_w=1)], "thorough": [dict(family="composite", max_ballots=2, max_w=2)]},
-        repo_test_rules=("IRV", "SNTV", "SequentialRCV", "TopTwo", "Alaska"),
+        repo_test_rules=("IRV", "SNTV", "SequentialRCV", "TopTwo", "Alaska"), wide={"rules": ("IRV", "SequentialRCV")},
         rule_text="the specification *defines* IRV as STV with one seat, SequentialRCV as STV with the full-weight transfer, SNTV as "
                   "Plurality, TopTwo and Alaska as the documented compositions (cut by first-place votes, remove the others from every "
                   "ballot, then Plurality(1) / STV(m2) on the reduced profile, rounds renumbered); role 1: TLC exhaustive on the bounded "
